@@ -14,7 +14,7 @@ EXPLANATION = ("PROVED (SMT, unbounded - every number of frames, pixels, nodes a
                "(filter comprehension over out_degree(), loop invariant of the edge-removal loop); F2 every pixel of a node's (time, seg id) carries 1 + the index "
                "of the node's segment, so labels are positive, equal within a segment and different across segments; F3 every other pixel is background (detections "
                "outside the solution are removed); F4 input array and solution graph are not written (nested loop invariants over the components and their nodes). "
-               "BOUNDED cross-check: relabel_segmentation_with_track_id on every forest with <= 4 (5) nodes, with a detection outside the solution.")
+               "BOUNDED cross-check: relabel_segmentation_with_track_id on every forest with <= 4 (5) nodes, with globally unique and with per-frame reused label values, with detections outside the solution.")
 ASSUMPTIONS = ["labels are non-negative integers (uint64 conversion), mathematical integers (no overflow)", "frames are non-empty arrays",
                "node times are frame indices and a (time, seg id) pair names at most one node (the documented input of relabelling by track)"]
 NOT_UNDER_CONTRACT = []
